@@ -50,3 +50,9 @@ pub trait AsyncWhere {
     where
         T: Encode;
 }
+
+// const parameter before type parameters: the trait keeps the parameter order the user wrote
+#[entrait(unimock = false)]
+pub trait ConstFirstShape<const N: usize, T: Copy + 'static, const M: usize> {
+    fn chunk(&self, value: T) -> ([T; N], [T; M]);
+}
